@@ -67,6 +67,78 @@ def const_value(o):
     return ("raw", s)
 
 
+def parse_const_table(text, ty):
+    """The elements of a constant array whose evaluated value rustc printed as `[elem, elem, ..]`, as terms, or None: elements may be string /
+    integer / bool / char literals, unit enum variants written as a path, and tuples of those.  (`const T: [(&str, i64); 5] = [("alpha", -3), ..]`)"""
+    pos = [0]
+    n = len(text)
+
+    def ws():
+        while pos[0] < n and text[pos[0]] in " \n\t":
+            pos[0] += 1
+
+    def elem(ety):
+        ws()
+        if pos[0] >= n:
+            raise ValueError
+        ch = text[pos[0]]
+        if ch == "(":
+            pos[0] += 1
+            parts = []
+            ws()
+            while text[pos[0]] != ")":
+                parts.append(elem(None))
+                ws()
+                if text[pos[0]] == ",":
+                    pos[0] += 1
+                    ws()
+            pos[0] += 1
+            return ("agg", "tuple", None, None, tuple(parts), ())
+        if ch == '"':
+            j = pos[0] + 1
+            while text[j] != '"':
+                j += 2 if text[j] == "\\" else 1
+            v = rust_unescape(text[pos[0] + 1:j])
+            pos[0] = j + 1
+            return ("const", "&str", v)
+        if ch == "'":
+            j = text.index("'", pos[0] + 2 if text[pos[0] + 1] == "\\" else pos[0] + 1)
+            v = rust_unescape(text[pos[0] + 1:j])
+            pos[0] = j + 1
+            return ("const", "char", ("char", v))
+        m = re.match(r"-?\d+(?:_([iu](?:8|16|32|64|128|size)))?", text[pos[0]:])
+        if m:
+            pos[0] += m.end()
+            return ("const", m.group(1) or "i32", int(m.group(0).split("_")[0]))
+        m = re.match(r"(true|false)\b", text[pos[0]:])
+        if m:
+            pos[0] += m.end()
+            return ("const", "bool", m.group(1) == "true")
+        m = re.match(r"[A-Za-z_][A-Za-z0-9_]*(?:::[A-Za-z_][A-Za-z0-9_]*)+", text[pos[0]:])
+        if m:
+            pos[0] += m.end()
+            path = m.group(0)
+            adt, var = path.rsplit("::", 1)
+            return ("agg", "adt", adt, var, (), ())
+        raise ValueError
+    try:
+        ws()
+        if text[pos[0]] != "[":
+            return None
+        pos[0] += 1
+        out = []
+        ws()
+        while text[pos[0]] != "]":
+            out.append(elem(None))
+            ws()
+            if text[pos[0]] == ",":
+                pos[0] += 1
+                ws()
+        return tuple(out)
+    except (ValueError, IndexError):
+        return None
+
+
 _NORM_CACHE = {}
 
 
@@ -980,6 +1052,8 @@ class PathEval:
                     self._finish(out, blocks, events, ("diverge", bb), st)
                     return
                 alts = self._desugar(path, args, tuple(f.get("gargs", ())), bb) if self.desugar else None
+                if alts is None and self.desugar and path.endswith("Iterator>::find") and len(args) == 2:
+                    alts = self._find_in_const_table(args, bb)
                 if alts is None and len(args) == 2 and ((path.rsplit("::", 1)[-1] in ("call", "call_mut", "call_once") and ("ops::Fn" in path or "function::Fn" in path))
                                                         or (self.fx.fns.get(path) or {}).get("kind") == "Closure"):
                     # a local closure called directly is a local helper: splice its body in (none exists in the tree the rules were written against)
@@ -1121,6 +1195,44 @@ class PathEval:
             if d is not None:
                 return ("const", "isize", d)
         return ("discr", o)
+
+    def _find_in_const_table(self, args, bb):
+        """TABLE.iter().find(pred) over a constant array of at most 16 known elements, evaluated as the if-chain it abbreviates:
+        element 0 if pred holds for it, else element 1 if .., else None.  (A table of (name, value) pairs searched by name is a `match` on the name.)"""
+        it = args[0]
+        while isinstance(it, tuple) and it and it[0] in ("refmut", "ref"):
+            it = it[1]
+        if isinstance(it, tuple) and it and it[0] == "loc" and len(it) > 2:
+            it = it[2]
+        if not (isinstance(it, tuple) and it and it[0] == "call" and it[1].endswith("[T]>::iter") and it[3]):
+            return None
+        tab = it[3][0]
+        while isinstance(tab, tuple) and tab and tab[0] in ("ref", "refmut"):
+            tab = tab[1]
+        elems = None
+        if isinstance(tab, tuple) and tab[:1] == ("const",) and isinstance(tab[2], tuple) and tab[2] and tab[2][0] == "raw":
+            elems = parse_const_table(tab[2][1], tab[1])
+        elif isinstance(tab, tuple) and tab[:2] == ("agg", "array"):
+            elems = tab[4]
+        if not elems or len(elems) > 16:
+            return None
+        OPT = "std::option::Option"
+        out = []
+        prefix = []          # facts: the predicate failed on every earlier element
+        for e in elems:
+            r = self._apply(args[1], (("ref", ("ref", e)),), bb)
+            if len(r) != 1 or r[0][1] or r[0][2] is None or (isinstance(r[0][2], tuple) and r[0][2][:2] == ("call", "closure-apply")):
+                return None
+            v = r[0][2]
+            if isinstance(v, tuple) and v[0] == "const" and isinstance(v[2], bool):
+                if v[2]:
+                    out.append(([], list(prefix), ("agg", "adt", OPT, "Some", (("ref", e),), ("0",))))
+                    return out
+                continue
+            out.append(([], list(prefix) + [(v, ("eq", True))], ("agg", "adt", OPT, "Some", (("ref", e),), ("0",))))
+            prefix.append((v, ("eq", False)))
+        out.append(([], list(prefix), ("agg", "adt", OPT, "None", (), ())))
+        return out
 
     def _apply(self, f, args, bb):
         """[(events, facts, value-or-None)] for applying a closure / fn item to argument terms"""
